@@ -84,7 +84,8 @@ def check(ctx):
     ctx.assumptions += [
         "valid population = documented columns and types, no value domains: an input or a data-dependent quantity may be zero unless a guard or its construction excludes it",
         "count aggregates over a person's own group are >= 1",
-        "non-negativity and the remaining caps (contribution <= rate*ceiling, Elterngeld cap) are not decided",
+        "rule N: every input column is >= 0 except the income / wealth columns listed in POSSIBLY_NEGATIVE_INPUTS; the reviewed differences in REVIEWED_DIFFERENCES are non-negative for the stated reason",
+        "the remaining caps (contribution <= rate*ceiling, Elterngeld cap) and finiteness beyond Z / Z-inf are not decided",
     ]
     ctx.rule("Z", "every division / floor division / modulo in a reachable rule has a denominator that is a non-zero constant or parameter value, a count aggregate, provably positive in the sign domain (sums / products / min / max of positive parameters, counts and non-negative sums), a parameter-only node with a non-zero value, or is dominated by a guard excluding zero")
     ctx.rule("Z-inf", "no + - * / with an infinite parameter value as operand (inf - inf, 0 * inf give NaN)")
@@ -162,6 +163,7 @@ def check(ctx):
         ctx.info(f"reviewed denominator {q}: `{dt}` - {why}")
     unit_consistency(ctx, repo)
     sibling_caps(ctx, repo)
+    nonneg_targets(ctx, s, dates)
     ctx.extra_cov["denominators_discharged_by"] = discharged_by
     ctx.extra_cov["dates"] = len(dates)
     ctx.sample({"discharged_by": discharged_by})
@@ -264,3 +266,149 @@ def sibling_caps(ctx, repo):
         ctx.ob("S-cap", ok=False, distinct=key)
         ctx.violation("S-cap", key, where, msg)
     ctx.ob("S-cap", ok=True, distinct="groups", n=max(n, 1))
+
+
+# --------------------------------------------------------------------------- N: non-negative default targets
+POSSIBLY_NEGATIVE_INPUTS = ["eink_vermietung_m", "eink_selbst_m", "kapitaleink_brutto_m", "sonstig_eink_m", "elterngeld_zu_verst_eink_vorjahr_y_sn", "vermögen_bedürft"]
+GLEITZONE = "transition-zone formula: it is read only where `in_gleitzone` holds (checked: rule N-ctx), and there wage > minijob_grenze (the regime predicates are decided by C19 R-cover)"
+RESIDUUM = "employee share as residuum (until 09/2022): total on the reduced assessment base minus the employer's share on the full wage; non-negative inside the transition zone because the factor F exceeds the employer's share of the total rate (parameter fact), read only under `in_gleitzone` (rule N-ctx)"
+# (rule, difference) -> (reason, context column or None): differences taken as non-negative after reading the code
+REVIEWED_DIFFERENCES = {
+    ("social_insurance_contributions/eink_grenzen.py:midijob_bemessungsentgelt_m_bis_09_2022", "bruttolohn_m - minijob_grenze"): (GLEITZONE, "in_gleitzone"),
+    ("social_insurance_contributions/eink_grenzen.py:midijob_bemessungsentgelt_m_ab_10_2022", "bruttolohn_m - minijob_grenze"): (GLEITZONE, "in_gleitzone"),
+    ("social_insurance_contributions/eink_grenzen.py:_midijob_beitragspfl_einnahme_arbeitnehmer_m", "bruttolohn_m - minijob_grenze"): (GLEITZONE, "in_gleitzone"),
+    ("social_insurance_contributions/ges_krankenv.py:_ges_krankenv_beitr_midijob_arbeitnehmer_m_residuum", "_ges_krankenv_beitr_midijob_sum_arbeitnehmer_arbeitgeber_m - _ges_krankenv_beitr_midijob_arbeitgeber_m"): (RESIDUUM, "in_gleitzone"),
+    ("social_insurance_contributions/ges_rentenv.py:_ges_rentenv_beitr_midijob_arbeitnehmer_m_residuum", "_ges_rentenv_beitr_midijob_sum_arbeitnehmer_arbeitgeber_m - _ges_rentenv_beitr_midijob_arbeitgeber_m"): (RESIDUUM, "in_gleitzone"),
+    ("social_insurance_contributions/arbeitsl_v.py:_arbeitsl_v_beitr_midijob_arbeitnehmer_m_residuum", "_arbeitsl_v_beitr_midijob_sum_arbeitnehmer_arbeitgeber_m - _arbeitsl_v_beitr_midijob_arbeitgeber_m"): (RESIDUUM, "in_gleitzone"),
+    ("social_insurance_contributions/ges_pflegev.py:_ges_pflegev_beitr_midijob_arbeitnehmer_m_residuum", "_ges_pflegev_beitr_midijob_sum_arbeitnehmer_arbeitgeber_m - _ges_pflegev_beitr_midijob_arbeitgeber_m"): (RESIDUUM, "in_gleitzone"),
+    ("transfers/erwerbsm_rente.py:entgeltp_zurechnungszeit", "zurechnungszeitgrenze - age_of_retirement"): ("a retirement after the Zurechnungszeitgrenze gives negative extra points, but the total E * (1 + (g - a) / (a - 17)) = E * (g - 17) / (a - 17) stays >= 0 for every retirement age a above the Grundbewertung age 17", None),
+    ("transfers/rente.py:durchschn_entgeltp", "age_of_retirement - erwerbsm_rente_params['altersgrenze_grundbewertung']"): ("retirement age above the Grundbewertung age (17); the boundary case a = 17 is the known finding of rule Z (zero denominator)", None),
+    ("transfers/rente.py:age_of_retirement", "jahr_renteneintr - geburtsjahr"): ("age at retirement: a person retires after being born; the year difference dominates the month correction below", None),
+    ("transfers/rente.py:age_of_retirement", "monat_renteneintr - geburtsmonat"): ("month correction of the age at retirement, within (-1, 1) years of a year difference of decades", None),
+}
+
+
+def _read_only_under(s, dag, name, flag, _seen=None):
+    """is `name` read, in every consumer, only at places dominated by a condition that mentions `flag`
+    positively - or handed on by a consumer for which the same holds?  returns (ok, offending consumer)"""
+    import ast as _ast
+
+    from staticlib.guards import Dominance, implies
+
+    _seen = _seen or set()
+    if name in _seen:
+        return True, None
+    _seen.add(name)
+    reach = dag.__dict__.setdefault("_reach_set", None)
+    if reach is None:
+        reach = dag.__dict__["_reach_set"] = set(dag.reach()[0])
+    consumers = [n for n in dag.nodes.values() if n.name in reach and (name in (n.args or []) or (n.kind in ("grp_agg", "pid_agg") and n.spec.get("source_col") == name))]
+    if not consumers:
+        return False, f"{name} is a target itself"
+    for c in consumers:
+        if c.kind != "rule":
+            ok, why = _read_only_under(s, dag, c.name, flag, _seen)
+            if not ok:
+                return False, why
+            continue
+        fn = c.rule.node
+        dom = Dominance(fn)
+        loads = [x for x in _ast.walk(fn) if isinstance(x, _ast.Name) and x.id == name and isinstance(x.ctx, _ast.Load)]
+        # single-assignment boolean locals (`voller_beitrag = not a and not b`) are inlined into the conditions
+        cnt, defs = {}, {}
+        for a in _ast.walk(fn):
+            if isinstance(a, _ast.Assign) and len(a.targets) == 1 and isinstance(a.targets[0], _ast.Name):
+                cnt[a.targets[0].id] = cnt.get(a.targets[0].id, 0) + 1
+                defs[a.targets[0].id] = a.value
+            elif isinstance(a, _ast.AugAssign) and isinstance(a.target, _ast.Name):
+                cnt[a.target.id] = 2
+        defs = {k: v for k, v in defs.items() if cnt[k] == 1 and isinstance(v, (_ast.BoolOp, _ast.UnaryOp, _ast.Compare, _ast.Name))}
+
+        class _Inl(_ast.NodeTransformer):
+            depth = 0
+
+            def visit_Name(self, n_):
+                if n_.id in defs and isinstance(n_.ctx, _ast.Load) and self.depth < 5:
+                    self.depth += 1
+                    r_ = self.visit(_ast.parse(_ast.unparse(defs[n_.id]), mode="eval").body)
+                    self.depth -= 1
+                    return r_
+                return n_
+
+        def atom(e):
+            return e.id if isinstance(e, _ast.Name) else None
+
+        guarded = True
+        for x in loads:
+            conds = [(_Inl().visit(_ast.parse(_ast.unparse(t), mode="eval").body), pol) for t, pol in dom.of(x)]
+            try:
+                ok_, _cex = implies(conds, atom, lambda env: env.get(flag, False))
+            except ValueError:
+                ok_ = False
+            if not ok_:
+                guarded = False
+        if not guarded:
+            ok, why = _read_only_under(s, dag, c.name, flag, _seen)
+            if not ok:
+                return False, why if why and "target itself" not in why else f"{c.rule.qual} reads {name} outside `{flag}`"
+    return True, None
+
+
+def nonneg_targets(ctx, s, dates):
+    """N: interval / sign proof that every default target is >= 0 at every date.  A report is raised only with
+    positive evidence - a difference (or negation, negative constant, schedule with a negative piece) that is
+    not under a guard ordering its operands and is not clamped on the way to the target; a loss of the proof
+    through a construct outside the domain is an analysis error, not a violation."""
+    from staticlib.signs import SignProver
+
+    ctx.rule("N", "every default target is provably non-negative: on every path from a difference `a - b` to a target there is a guard ordering a and b, a max(., 0) clamp, or bounds of the operands (caps such as min(n - 1, 4), parameter values) that keep it >= 0")
+    ctx.rule("N-ctx", "a formula reviewed as non-negative only inside the transition zone is read by its consumers only under `in_gleitzone`")
+    targets = list(s.repo.default_targets)
+    proved = 0
+    seen_v = set()
+    for d in dates:
+        sp = SignProver(s, d, POSSIBLY_NEGATIVE_INPUTS)
+        sp.reviewed = {k: v[0] for k, v in REVIEWED_DIFFERENCES.items()}
+        dag = sp.dag
+        for t in targets:
+            if t not in dag.nodes:
+                raise AnalysisError(f"default target {t} has no producer at {d}")
+            sg = sp.sign(t)
+            ctx.ob("N", ok=sg is not None, distinct=(t, _impl_of(dag, t)))
+            if sg is not None:
+                proved += 1
+                continue
+            blamed = sp.blame(t)
+            evid = [(n, q, og, note) for n, q, og, note in blamed if og]
+            if not evid:
+                why = "; ".join(f"{q or n}: {note or 'construct outside the sign domain'}" for n, q, og, note in blamed[:3])
+                raise AnalysisError(f"N: the non-negativity proof of {t} at {d} is lost without a difference to point at ({why}); the sign domain needs a re-read")
+            for n, q, og, note in evid:
+                for kind, line, modrel, text in sorted(og):
+                    key = f"{q}|{kind}|{text}"
+                    if key in seen_v:
+                        continue
+                    seen_v.add(key)
+                    ctx.violation("N", key, f"src/_gettsim/{modrel}:{line} {q.split(':')[-1]}", f"at {d} the default target {t} can become negative: {q.split(':')[-1]} computes the {kind} `{text}` with no guard ordering its operands, no bound that keeps it >= 0 and no max(., 0) clamp between it and {t}")
+        # context of the reviewed transition-zone formulas
+        for (q, text) in sorted(sp.used_reviewed):
+            flag = REVIEWED_DIFFERENCES[(q, text)][1]
+            if flag is None:
+                continue
+            node = next((n for n in dag.nodes.values() if n.kind == "rule" and n.rule.qual == q), None)
+            if node is None:
+                continue
+            ok, why = _read_only_under(s, dag, node.name, flag)
+            ctx.ob("N-ctx", ok=ok, distinct=(q, text))
+            if not ok and f"ctx|{q}|{why}" not in seen_v:
+                seen_v.add(f"ctx|{q}|{why}")
+                ctx.violation("N-ctx", f"{q}|{why}", node.rule.where, f"at {d} {node.name} (non-negative only inside the transition zone: `{text}`) is read outside `{flag}`: {why}")
+    for k, (reason, _flag) in REVIEWED_DIFFERENCES.items():
+        ctx.info(f"N reviewed difference {k[0]} `{k[1]}`: {reason}") if hasattr(ctx, "info") else None
+    ctx.extra_cov["N_targets_proved"] = proved
+    ctx.floor("N", 18)
+
+
+def _impl_of(dag, t):
+    n = dag.nodes.get(t)
+    return n.rule.qual if n is not None and n.rule is not None else t
